@@ -25,6 +25,7 @@ class Bus:
         self.bound = bound
         self.log = []            # (width, value, answer) per transmitted frame
         self.commands = []       # yielded Command objects' (name, frame int)
+        self.command_answers = []   # outcome handed to the sequence per yielded command (after fault injection)
         self.n_commands = 0
         self.sleeps = 0
         self.progress = []
@@ -67,6 +68,7 @@ class Bus:
                 out = ("collision", out[1] if out else 0)
             elif isinstance(fault, int):
                 out = ("ok", fault)
+        self.command_answers.append(out)
         if cmd.response is None:
             return None
         if out is None:
